@@ -75,9 +75,13 @@ class DataSet:
             if address_end > from_pos:
                 address = line[from_pos:address_end]
                 from_pos = address_end
+            elif from_pos > 0:
+                raise ValueError("Unexpected characters after data set.")
 
             while from_pos > 0:
                 value_end_pos = line.find(")", from_pos)
+                if value_end_pos == -1:
+                    raise ValueError("Data set value is missing end parenthesis.")
                 values.append(DataSetValue.parse(line[from_pos + 1 : value_end_pos]))
                 from_pos = value_end_pos + 1
 
